@@ -239,8 +239,8 @@ def iterpath(obj, path=None):
 
         elif isinstance(varobj, list):
 
-            for item in varobj:
-                index = '[{0}]'.format(varobj.index(item))
+            for position, item in enumerate(varobj):
+                index = '[{0}]'.format(position)
                 path.append(index)
 
                 yield (path, item)
